@@ -227,6 +227,11 @@ def base : Handler
         let want := e.denote.mulVec v
         some (holds (closeVec tol want out) ("want=" ++ showRatList want))
       | _ => none
+  /- `astype(int)` of a SparseLR / CoNeighbor on integer input: integer output (entries of a vector, or of the rows of a
+     2-d array joined by `;`) -/
+  | "c15.spec_integral", [out] => ans do
+      let vs ← ratListList? out
+      some (holds (vs.all integralVec) "integral")
   | "c15.spec_dotmat", ts => ans do
       let (e, r) ← parseExpr ts
       match r with
@@ -420,28 +425,8 @@ def base : Handler
       some (holds (TopKSpec s (← k.toNat?) (← bool? sort) (← natList? out)) "TopKSpec")
   | _, _ => none
 
-/-- `c15.spec_same tol vec <out> cmd args…` / `… mat <n m rows> cmd args…`: for the utilities whose model *is*
-    the elementary definition, the definition evaluated by `cmd args…` is compared with the
-    implementation's output within the tolerance -/
+/-- spec lines that refer to the answer of a run line -/
 def handle : Handler
-  | "c15.spec_same", tol :: "vec" :: out :: cmd :: args => ans do
-      let tol ← rat? tol
-      let out ← ratList? out
-      let a ← base cmd args
-      match splitTok a with
-      | ["ok", w] =>
-        let want ← ratList? w
-        some (holds (closeVec tol want out) ("want=" ++ w))
-      | _ => some ("fails definition=" ++ a.replace " " "_")
-  | "c15.spec_same", tol :: "mat" :: n :: m :: rows :: cmd :: args => ans do
-      let tol ← rat? tol
-      let out ← mat? n m rows
-      let a ← base cmd args
-      match splitTok a with
-      | ["ok", wn, wm, wrows] =>
-        let want ← mat? wn wm wrows
-        some (holds (closeMat tol want out) ("want=" ++ wrows))
-      | _ => some ("fails definition=" ++ a.replace " " "_")
   /- `c15.spec_refused cmd args…`: the implementation raised on this request; that is justified only if the
      request is refused by the model as well (shape errors are characterised by `C15.denote_op_dot_error`) -/
   | "c15.spec_refused", cmd :: args => ans do
